@@ -264,4 +264,170 @@ Proof.
       rewrite !app_length. simpl. lia.
     + apply (q_alive _ Q).
 Qed.
+
+Lemma filter_remove_len : forall (l : list nat) id, NoDup l -> In id l -> S (length (filter (fun x => negb (Nat.eqb x id)) l)) = length l.
+Proof. intros. apply (remove_id_length l id); auto. Qed.
+
+Lemma rm_q : forall s P k s' b ns, GoodP s P -> GoodQ s -> h_rm v_fixed hf s k = Ok (s', b, ns) -> GoodQ s'.
+Proof.
+  intros s P k s' bb ns G Q. unfold h_rm. set (b := bucket_ix hf s k).
+  destruct (find_node v_fixed (h_heap s) (bucket s b) k) as [r|] eqn:F; simpl; [|intro; discriminate].
+  generalize (find_node_spec _ _ _ _ (bucket_all_live s P _ G) F). destruct r as [id|].
+  2:{ intros _ E. inversion E; subst. auto. }
+  intros [Hin [n [N1 [N2 N3]]]]. rewrite N1. simpl.
+  assert (Hl : In id (linked s)) by (eapply in_bucket_linked; eauto).
+  assert (Hlt : id < length (h_heap s)) by (eapply deref_lt; eauto).
+  set (n1 := {| hn_key := hn_key n; hn_val := hn_val n; hn_ref := hn_ref n; hn_removed := true; hn_subs := hn_subs n |}).
+  set (s1 := set_heap s (store (h_heap s) id n1)).
+  destruct (node_deref s1 id) as [[s2 ns2]|] eqn:ND; simpl; [|intro; discriminate].
+  intro E. inversion E; subst. clear E.
+  set (c := wrap64 (h_count s - 1)).
+  assert (HC : h_count s2 = h_count s) by (rewrite (node_deref_count _ _ _ _ ND); reflexivity).
+  rewrite HC. fold c.
+  (* the marked state with the decremented count satisfies GoodQ; the presence reference acts as one more iterator *)
+  assert (EN : forall y, y <> id -> ent (store (h_heap s) id n1) y = ent (h_heap s) y).
+  { intros. rewrite ent_store by auto. replace (Nat.eqb id y) with false; auto. symmetry. apply Nat.eqb_neq. auto. }
+  assert (EI : ent (store (h_heap s) id n1) id = mk_ent id n1). { rewrite ent_store by auto. rewrite Nat.eqb_refl. auto. }
+  assert (LV : live_ids s1 = filter (fun x => negb (Nat.eqb x id)) (live_ids s)).
+  { unfold live_ids. change (linked s1) with (linked s). rewrite filter_filter_comm.
+    rewrite <- (filter_filter_and (fun x => negb (Nat.eqb x id)) (is_live_id (h_heap s)) (is_live_id (h_heap s1))).
+    - rewrite filter_filter_comm. reflexivity.
+    - intros y. unfold is_live_id, s1. cbn [h_heap set_heap]. destruct (Nat.eqb y id) eqn:E1.
+      + apply Nat.eqb_eq in E1. subst y. rewrite EI. simpl. rewrite andb_false_r. reflexivity.
+      + apply Nat.eqb_neq in E1. rewrite EN by auto. simpl. rewrite andb_true_r. reflexivity. }
+  assert (LI : In id (live_ids s)).
+  { unfold live_ids. apply filter_In. split; auto. rewrite (is_live_deref _ _ _ N1), N2. auto. }
+  assert (Q1 : GoodQ (set_count s1 c)).
+  { constructor; simpl.
+    - apply (q_nb _ Q).
+    - intros b1 y Hy. change (bucket (set_count s1 c) b1) with (bucket s b1) in Hy. change (nb (set_count s1 c)) with (nb s).
+      unfold key_of. destruct (Nat.eq_dec y id).
+      + subst y. rewrite EI. simpl. generalize (q_place _ Q b1 id Hy). rewrite (key_of_deref _ _ _ N1). auto.
+      + rewrite EN by auto. apply (q_place _ Q); auto.
+    - change (live_ids (set_count s1 c)) with (live_ids s1). rewrite LV.
+      erewrite map_ext_in. apply (nodup_map_filter (key_of (h_heap s))). apply (q_keys _ Q).
+      intros y Hy. apply filter_In in Hy. destruct Hy as [_ Hy]. apply negb_true_iff in Hy. apply Nat.eqb_neq in Hy.
+      unfold key_of. rewrite EN; auto.
+    - change (live_ids (set_count s1 c)) with (live_ids s1). rewrite LV. unfold c. rewrite (q_count _ Q), wrap64_pred. f_equal.
+      assert (ND1 : NoDup (live_ids s)) by (unfold live_ids; apply NoDup_filter; apply (p_nodup _ _ G)).
+      generalize (filter_remove_len (live_ids s) id ND1 LI). lia.
+    - apply (q_alive _ Q). }
+  assert (G1 : GoodP (set_count s1 c) ({| hi_node := Some id; hi_bucket := b |} :: P)).
+  { apply (goodp_ctl s1); auto. constructor; simpl.
+    - apply (p_nodup _ _ G).
+    - intros y Hy. change (In y (linked s)) in Hy. unfold s1. simpl. rewrite deref_store by auto. rewrite pcount_cons. unfold parked_on. simpl.
+      destruct (p_node _ _ G y Hy) as [m [M1 [M2 M3]]]. destruct (Nat.eqb id y) eqn:E1.
+      + apply Nat.eqb_eq in E1. subst y. rewrite N1 in M1. inversion M1; subst m. exists n1. split; auto.
+        unfold base in *. simpl. rewrite N2 in M2. split; auto; try lia.
+      + exists m. auto.
+    - intros hi y [Hhi|Hhi] Hn. subst hi. simpl in *. inversion Hn; subst. exact Hin. apply (p_iter _ _ G hi y Hhi Hn). }
+  assert (ND2 : node_deref (set_count s1 c) id = Ok (set_count s2 c, ns)).
+  { rewrite node_deref_set_count, ND. reflexivity. }
+  apply (node_deref_q (set_count s1 c) P _ id _ ns G1 eq_refl Q1 ND2).
+Qed.
+
+Lemma notify_add_q : forall e1 e2 e3 s P k fn ev ud s' z, GoodP s P -> GoodQ s ->
+  h_notify_add v_fixed hf e1 e2 e3 s k fn ev ud = Ok (s', z) -> GoodQ s'.
+Proof.
+  intros e1 e2 e3 s P k fn ev ud s' z G Q. unfold h_notify_add. destruct k as [kk|].
+  - destruct (has_bit ev EV_FREE). { intro E; inversion E; subst; auto. }
+    destruct (find_node v_fixed (h_heap s) (bucket s (bucket_ix hf s kk)) kk) as [r|] eqn:F; simpl; [|intro; discriminate].
+    generalize (find_node_spec _ _ _ _ (bucket_all_live s P _ G) F). destruct r as [id|].
+    2:{ intros _ E; inversion E; subst; auto. }
+    intros [Hin [n [N1 [N2 N3]]]]. rewrite N1. simpl.
+    destruct (nsub_conflict (hn_subs n) fn ev ud); intro E; inversion E; subst; auto.
+    apply goodq_heap; auto. eapply same_view_store; eauto.
+  - destruct (nsub_conflict (h_subs s) fn ev ud); intro E; inversion E; subst; auto.
+    apply (goodq_ctl s); try reflexivity; auto.
+Qed.
+
+Lemma notify_del_q : forall e2 s P k fn ev ud s' z, GoodP s P -> GoodQ s ->
+  h_notify_del v_fixed hf e2 s k fn ev ud = Ok (s', z) -> GoodQ s'.
+Proof.
+  intros e2 s P k fn ev ud s' z G Q. unfold h_notify_del. destruct k as [kk|].
+  - destruct (find_node v_fixed (h_heap s) (bucket s (bucket_ix hf s kk)) kk) as [r|] eqn:F; simpl; [|intro; discriminate].
+    generalize (find_node_spec _ _ _ _ (bucket_all_live s P _ G) F). destruct r as [id|].
+    2:{ intros _ E; inversion E; subst; auto. }
+    intros [Hin [n [N1 [N2 N3]]]]. rewrite N1. simpl.
+    destruct (existsb (nsub_match fn ev ud) (hn_subs n)); intro E; inversion E; subst; auto.
+    apply goodq_heap; auto. eapply same_view_store; eauto.
+  - destruct (existsb (nsub_match fn ev ud) (h_subs s)); intro E; inversion E; subst; auto.
+    apply (goodq_ctl s); try reflexivity; auto.
+Qed.
+
+(* ---- one API call, any operation ---- *)
+Lemma top_split : forall s it hi, Top s -> iter_lookup (h_iters s) it = Some hi ->
+  exists Prest, GoodP s (hi :: Prest).
+Proof.
+  intros s it hi T L. destruct (iter_split _ _ _ L) as [l1 [l2 [Q1 Q2]]].
+  exists (map snd l1 ++ map snd l2). eapply goodp_perm. 2: apply (t_good _ T).
+  unfold its. rewrite Q1, map_app. simpl. apply Permutation_sym. apply Permutation_middle.
+Qed.
+
+Lemma step_q_core : forall rc s o s' x ns, Top s -> GoodQ s ->
+  h_step v_fixed hf rc s o = Ok (s', x, ns) -> h_alive s' = true -> GoodQ s'.
+Proof.
+  intros rc s o s' x ns T Q. destruct rc as [[e1 e2] e3]. unfold h_step. rewrite (q_alive _ Q). simpl.
+  destruct o.
+  - destruct (h_put v_fixed hf s k v) as [[s1 ns1]|] eqn:E; simpl; intros H A; inversion H; subst. eapply (put_q s (its s)); [apply (t_good _ T)|exact Q|exact E].
+  - destruct (h_get v_fixed hf s k); simpl; intros H A; inversion H; subst; auto.
+  - destruct (h_rm v_fixed hf s k) as [[[s1 b1] ns1]|] eqn:E; simpl; intros H A; inversion H; subst. eapply (rm_q s (its s)); [apply (t_good _ T)|exact Q|exact E].
+  - intros H A; inversion H; subst; auto.
+  - destruct (h_foreach v_fixed s stop) as [[[s1 l1] ns1]|] eqn:E; simpl; intros H A; inversion H; subst. eapply (foreach_q s (its s)); [apply (t_good _ T)|exact Q|exact E].
+  - destruct (h_notify_add v_fixed hf e1 e2 e3 s k fn ev ud) as [[s1 z]|] eqn:E; simpl; intros H A; inversion H; subst.
+    eapply (notify_add_q e1 e2 e3 s (its s)); [apply (t_good _ T)|exact Q|exact E].
+  - destruct (h_notify_del v_fixed hf e2 s k fn ev ud) as [[s1 z]|] eqn:E; simpl; intros H A; inversion H; subst.
+    eapply (notify_del_q e2 s (its s)); [apply (t_good _ T)|exact Q|exact E].
+  - unfold h_destroy. destruct (destroy_nodes s (concat (h_buckets s))) as [[s1 ns1]|]; simpl; intros H A; inversion H; subst. simpl in A. discriminate.
+  - destruct (existsb (Nat.eqb it) (h_used s)); intros H A; inversion H; subst; auto.
+    apply (goodq_ctl s); try reflexivity; auto. simpl. symmetry. apply (q_alive _ Q).
+  - destruct (iter_lookup (h_iters s) it) as [hi|] eqn:L. 2:{ intros H A; inversion H; subst; auto. }
+    destruct (top_split s it hi T L) as [Prest G].
+    destruct (h_iter_next v_fixed s hi) as [[[[s1 hi1] r] ns1]|] eqn:E; simpl; intros H A; inversion H; subst.
+    apply (goodq_ctl s1); try reflexivity. apply (iter_next_q s Prest hi s1 hi1 r ns G Q E).
+  - destruct (iter_lookup (h_iters s) it) as [hi|] eqn:L. 2:{ intros H A; inversion H; subst; auto. }
+    destruct (top_split s it hi T L) as [Prest G].
+    destruct (h_iter_free v_fixed s hi) as [[s1 ns1]|] eqn:E; simpl; intros H A; inversion H; subst.
+    apply (goodq_ctl s1); try reflexivity. apply (iter_free_q s Prest hi s1 ns G Q E).
+Qed.
+
+Definition TopQ (s : hstate) : Prop := h_alive s = false \/ (Top s /\ GoodQ s).
+
+Theorem hash_step_q : forall rc s o s' x ns, TopQ s -> h_step v_fixed hf rc s o = Ok (s', x, ns) -> TopQ s'.
+Proof.
+  intros rc s o s' x ns [D|[T Q]] H.
+  - unfold h_step in H. destruct rc as [[e1 e2] e3]. rewrite D in H. simpl in H. inversion H; subst. left; auto.
+  - destruct (hash_step_total hf rc s o (or_intror T)) as [s0 [x0 [ns0 [E TI]]]]. rewrite H in E. inversion E; subst.
+    destruct (h_alive s0) eqn:A. 2:{ left; auto. }
+    right. destruct TI as [TI|TI]. congruence. split; auto. eapply step_q_core; [exact T|exact Q|exact H|exact A].
+Qed.
+
+Lemma topq_create : forall m, TopQ (h_create m).
+Proof.
+  intros. right. split.
+  - destruct (top_create m) as [D|T]; auto. discriminate.
+  - destruct (good_create hf m) as [G _]. assert (L : linked (h_create m) = []) by (unfold linked, h_create; simpl; apply concat_repeat_nil).
+    constructor; simpl.
+    + apply (g_nb _ _ G).
+    + intros b id Hid. exfalso. assert (In id (linked (h_create m))) by (eapply in_bucket_linked; eauto). rewrite L in H. contradiction.
+    + unfold live_ids. rewrite L. constructor.
+    + unfold live_ids. rewrite L. reflexivity.
+    + reflexivity.
+Qed.
+
+Theorem hash_topq_after : forall rc ops s s', TopQ s -> h_state_after v_fixed hf rc s ops = Ok s' -> TopQ s'.
+Proof.
+  induction ops; simpl; intros. inversion H0; subst; auto.
+  destruct (h_step v_fixed hf rc s a) as [[[s1 x] ns]|] eqn:E; simpl in H0; try discriminate.
+  eapply IHops. 2: exact H0. eapply hash_step_q; eauto.
+Qed.
+
+(* C18, last clause: after ANY history, once no iterator is open (all freed), the table satisfies the representation
+   invariant from which the dictionary lock-step theorem (C17) starts: it is a dictionary of the surviving entries *)
+Theorem hash_survivors_good : forall rc m ops s,
+  h_state_after v_fixed hf rc (h_create m) ops = Ok s -> h_iters s = [] -> h_alive s = true -> Good hf s.
+Proof.
+  intros. destruct (hash_topq_after rc ops (h_create m) s (topq_create m) H) as [D|[T Q]]. congruence.
+  apply good_of_pq; auto. generalize (t_good _ T). unfold its. rewrite H0. auto.
+Qed.
 End Q.
